@@ -258,7 +258,7 @@ def concerning_model(rng):
 
 
 def cli_case(arg):
-    seed, idx, sz, scratch = arg
+    seed, idx, sz, scratch = arg[:4]
     rng = random.Random("C11c|%d|%d" % (seed, idx))
     d = os.path.join(scratch, "f%d" % idx)
     os.makedirs(d)
@@ -301,6 +301,13 @@ def cli_case(arg):
             tables.append((ts, r.out))
         for clause, det in check_formats(j1, j2, tables, "cli"):
             out["viol"].append((clause, det))
+        if idx % 4 == 0 and len(arg) > 4:
+            class _C:
+                def count(self, n=1): out["evals"] += n
+                def bump(self, *a): pass
+                def violation(self, sig, det): out["viol"].append((sig.replace("C11/", ""), det))
+            for fa in (["--json", "--json-version=2"], ["-v"]):
+                R.fault_probe(_C(), "C11", sz, gitdir, fa + ["--no-progress"], rng, arg[4], d, n=2)
         out["stars"] = sum(1 for _, _, sym, v1, _, _, sc in P.TABLE_LAYOUT if j1.get(v1, 0) / sc >= 1)
         out["sample"] = {"max_parent_count": j1["max_parent_count"], "max_tag_depth": j1["max_tag_depth"],
                          "max_path_depth": j1["max_path_depth"], "max_tree_entries": j1["max_tree_entries"], "thresholds": ths}
@@ -314,7 +321,8 @@ def run(chk, b, tier):
     sz = b.sizer()
     scratch = b.scratchdir()
     n = 32 if tier == "quick" else 400
-    res = R.pmap(cli_case, [(R.SEED, i, sz, scratch) for i in range(n)], chk=chk)
+    shimdir = b.shimdir()
+    res = R.pmap(cli_case, [(R.SEED, i, sz, scratch, shimdir) for i in range(n)], chk=chk)
     for i, r in enumerate(res):
         chk.count(r["evals"])
         for clause, det in r["viol"]:
